@@ -38,14 +38,15 @@ class FakeInfo:
 
 
 class FakeZip:
-    def __init__(self, entries):
-        self._e = [FakeInfo(fs, cs, d, f"m{i}") for i, (fs, cs, d) in enumerate(entries)]
+    def __init__(self, entries, same_name=False):
+        # the predicate is about central-directory records: records that share a name are still records
+        self._e = [FakeInfo(fs, cs, d, "dup" if same_name else f"m{i}") for i, (fs, cs, d) in enumerate(entries)]
 
     def infolist(self):
         return list(self._e)
 
 
-def run_real(entries, L):
+def run_real(entries, L, same_name=False):
     from sharepoint2text.parsing.extractors.util import zip_bomb
     from sharepoint2text.parsing.exceptions import ExtractionZipBombError
     lim = zip_bomb.ZipBombLimits(max_entries=L["max_entries"], max_total_uncompressed_bytes=L["total"],
@@ -53,7 +54,7 @@ def run_real(entries, L):
                                  max_total_compression_ratio=float(L["total_ratio"]),
                                  max_entry_compression_ratio=float(L["entry_ratio"]))
     try:
-        zip_bomb.validate_zipfile(FakeZip(entries), limits=lim, source="replay")
+        zip_bomb.validate_zipfile(FakeZip(entries, same_name), limits=lim, source="replay")
         return "accepted"
     except ExtractionZipBombError:
         return "rejected"
@@ -64,6 +65,10 @@ def run_real(entries, L):
 def check(entries, L):
     want = "rejected" if spec_reject_py(entries, L) else "accepted"
     got = run_real(entries, L)
+    if got == want and len(entries) >= 2:
+        got2 = run_real(entries, L, same_name=True)
+        if got2 != want:
+            return want, got2 + " (records sharing one file name)"
     return want, got
 
 
@@ -103,10 +108,39 @@ def _zip_bytes(members):
     return buf.getvalue()
 
 
+def native_extractors():
+    """A ratio bomb handed to every ZIP-container extractor must come back as ExtractionZipBombError."""
+    import importlib
+    from sharepoint2text.parsing.exceptions import ExtractionZipBombError
+    bomb = _zip_bytes([("mimetype", b"application/zip"), ("content.xml", b"\0" * 3_000_000), ("word/document.xml", b"\0" * 3_000_000)])
+    for modname, fn, name in (("ms_modern.docx_extractor", "read_docx", "a.docx"), ("ms_modern.pptx_extractor", "read_pptx", "a.pptx"),
+                              ("ms_modern.xlsx_extractor", "read_xlsx", "a.xlsx"), ("open_office.odt_extractor", "read_odt", "a.odt"),
+                              ("open_office.ods_extractor", "read_ods", "a.ods"), ("open_office.odp_extractor", "read_odp", "a.odp"),
+                              ("open_office.odg_extractor", "read_odg", "a.odg"), ("open_office.odf_extractor", "read_odf", "a.odf"),
+                              ("epub_extractor", "read_epub", "a.epub")):
+        try:
+            f = getattr(importlib.import_module("sharepoint2text.parsing.extractors." + modname), fn)
+        except Exception:  # noqa
+            continue
+        try:
+            list(f(io.BytesIO(bomb), name))
+            res = "returned"
+        except ExtractionZipBombError:
+            continue
+        except Exception as e:  # noqa
+            res = type(e).__name__
+        return {"target": f"{modname}.py::{fn}", "inputs": {"case": "ZIP with two 3,000,000-byte all-zero members (entry compression ratio > 500)"},
+                "expected": "ExtractionZipBombError", "observed": res}
+    return None
+
+
 def native_wrappers():
     """Position restore / close-on-failure / directory flag, on real zipfile objects."""
     import zipfile
     from sharepoint2text.parsing.extractors.util import zip_bomb
+    r0 = native_extractors()
+    if r0 is not None:
+        return r0
     good = _zip_bytes([("a.txt", b"hello"), ("d/", b"")])
     bomb = _zip_bytes([("a.txt", b"\0" * 200000)])
     low = zip_bomb.ZipBombLimits(max_entry_compression_ratio=2.0)
